@@ -83,14 +83,27 @@ class SymRegs(dict):
     """the real REGISTERS dict; a SymInt key forks on membership in the real
     integer keys and maps through the real values"""
 
+    def _ranges(self):
+        ikeys = sorted(kk for kk in dict.keys(self) if type(kk) is int)
+        out = []
+        for kk in ikeys:
+            if out and out[-1][1] == kk - 1:
+                out[-1][1] = kk
+            else:
+                out.append([kk, kk])
+        return ikeys, out
+
+    def _member(self, k):
+        ikeys, ranges = self._ranges()
+        return core.Or(*[core.And(k >= lo, k <= hi) for lo, hi in ranges])
+
     def __getitem__(self, k):
         if isinstance(k, SymInt):
-            ikeys = sorted(kk for kk in dict.keys(self) if type(kk) is int)
-            member = core.Or(*[k == kk for kk in ikeys])
-            if not member:
+            ikeys, ranges = self._ranges()
+            if not self._member(k):
                 raise KeyError(k)
             vals = [dict.__getitem__(self, kk) for kk in ikeys]
-            if ikeys == list(range(len(ikeys))) and vals == ikeys and len(ikeys) == 32:
+            if ikeys == list(range(32)) and vals == ikeys:
                 return SymInt(z3.ZeroExt(1, z3.Extract(4, 0, k.bv(6))), 0, 31)
             r = vals[-1]
             for kk, vv in zip(reversed(ikeys[:-1]), reversed(vals[:-1])):
@@ -100,8 +113,7 @@ class SymRegs(dict):
 
     def __contains__(self, k):
         if isinstance(k, SymInt):
-            ikeys = sorted(kk for kk in dict.keys(self) if type(kk) is int)
-            return bool(core.Or(*[k == kk for kk in ikeys]))
+            return bool(self._member(k))
         return dict.__contains__(self, k)
 
 
@@ -157,6 +169,17 @@ MARK = re.compile(r'@([A-Za-z_][A-Za-z_0-9]*)@')
 class Markers:
     """'@NAME@' tokens stand for 'some spelling of the integer NAME'"""
     table = {}
+    keep = []
+
+
+def _str_marker(v):
+    name = 's%d' % id(v)
+    Markers.table[name] = v
+    Markers.keep.append(v)
+    return '@%s@' % name
+
+
+core.STR_HOOK[0] = _str_marker
 
 
 def _int(*a, **kw):
@@ -169,6 +192,15 @@ def _int(*a, **kw):
             return a[0]
         raise TypeError("int() can't convert non-string with explicit base")
     return builtins.int(*a, **kw)
+
+
+def _eval(expr, g=None, l=None):
+    """an @NAME@ token standing alone is 'some spelling of the integer NAME'"""
+    if isinstance(expr, str):
+        m = MARK.fullmatch(expr.strip())
+        if m and m.group(1) in Markers.table:
+            return Markers.table[m.group(1)]
+    return builtins.eval(expr, g, l)
 
 
 class _NullLog:
@@ -195,6 +227,7 @@ def install(mod, vfs=None):
     mod.bytes = _bytes
     mod.len = sym_len
     mod.int = _int
+    mod.eval = _eval
     mod.log_conversion = _noop
     mod.log_constant = _noop
     mod.log = _NullLog()
